@@ -290,7 +290,7 @@ class PatternAnalyzer:
                     self.extract_tree_predicates(attr_op.value_type, type_pos, inputs)
                 )
 
-            elif attr_op.value:
+            elif attr_op.value is not None:
                 attr_constraint = Predicate.get_attribute_constraint(attr_op.value)
                 predicates.append(
                     PositionalPredicate(
